@@ -297,6 +297,7 @@ func (rs *rowStore) processInserts(ms *memstore, stop <-chan interface{}) {
 			}
 			rs.mx.Unlock()
 			verifCount("applied", rs.t)
+			verifPoint("insert.applied")
 		case <-flushTimer.C:
 			rs.t.log.Trace("Requesting flush due to flush interval")
 			flush(false)
@@ -431,9 +432,11 @@ func (rs *rowStore) doProcessFlush(ms *memstore, allowSort, allowFailure bool) (
 		rs.t.db.Panic(flushErr)
 	}
 
+	verifPoint("flush.written:" + rs.t.Name)
 	if syncErr := out.Sync(); syncErr != nil {
 		rs.t.db.Panic(syncErr)
 	}
+	verifPoint("flush.synced:" + rs.t.Name)
 	fi, err := out.Stat()
 	if err != nil {
 		fs.t.log.Errorf("Unable to stat output file to get size: %v", err)
@@ -449,6 +452,7 @@ func (rs *rowStore) doProcessFlush(ms *memstore, allowSort, allowFailure bool) (
 	if renameErr := os.Rename(out.Name(), newFileStoreName); renameErr != nil {
 		rs.t.db.Panic(renameErr)
 	}
+	verifPoint("flush.renamed:" + rs.t.Name)
 	defer func() {
 		shasum, err := calcShaSum(newFileStoreName)
 		if err != nil {
@@ -464,6 +468,7 @@ func (rs *rowStore) doProcessFlush(ms *memstore, allowSort, allowFailure bool) (
 	rs.fileStore = fs
 	rs.memStore = ms
 	rs.mx.Unlock()
+	verifPoint("flush.swapped:" + rs.t.Name)
 
 	flushDuration := time.Now().Sub(start)
 	if fi != nil {
@@ -696,12 +701,15 @@ func (rs *rowStore) writeOffsets(offsetsBySource common.OffsetsBySource) error {
 	if err != nil {
 		return errors.New("Unable to sync offset file: %v", err)
 	}
+	verifPoint("offsets.synced:" + rs.t.Name)
 	err = out.Close()
 	if err != nil {
 		return errors.New("Unable to close offset file: %v", err)
 	}
 
-	return os.Rename(out.Name(), filepath.Join(rs.opts.dir, offsetFilename))
+	err = os.Rename(out.Name(), filepath.Join(rs.opts.dir, offsetFilename))
+	verifPoint("offsets.renamed:" + rs.t.Name)
+	return err
 }
 
 func (rs *rowStore) removeOldFiles(stop <-chan interface{}) {
@@ -744,6 +752,7 @@ func (rs *rowStore) removeOldFiles(stop <-chan interface{}) {
 					if err != nil {
 						rs.t.log.Errorf("Unable to delete old file store %v, still consuming disk space unnecessarily: %v", name, err)
 					}
+					verifPoint("old.removed:" + rs.t.Name)
 				}
 			}
 		}
